@@ -11,7 +11,7 @@ import UF.Gen.Facts
     the host is the suffix itself.
   * Third party: there is a source and its registrable domain differs from the request's.
 -/
-namespace UF
+namespace UF.H
 open Bytes
 
 /-- Is `u` inside the URL grammar, and if so what is its host?  (`none` = outside the grammar.) -/
@@ -57,9 +57,9 @@ def refRequest (ext : Ext) (url sourceURL : Bytes) (requestType : Nat) : Option 
            thirdParty := refThirdParty d sd }
   | _, _ => none
 
-end UF
+end UF.H
 
-namespace UF
+namespace UF.H
 open Bytes
 
 /-- Side conditions of the URL grammar `scheme "://" host tail`, `tail` being
@@ -76,4 +76,4 @@ def goodURLParts (scheme host tail : Bytes) : Bool :=
 def pslIsDotSuffix (ext : Ext) (h : Bytes) : Prop :=
   h = (ext.psl h).1 ∨ ∃ pre, h = pre ++ ch '.' :: (ext.psl h).1
 
-end UF
+end UF.H
